@@ -102,6 +102,10 @@ func main() {
 			to = 60
 		}
 	}
+	if *tier == "thorough" && *workers > 5 {
+		// the thorough tier races three solvers on every obligation: fewer obligations in parallel, so that none starves
+		*workers = 5
+	}
 	switch cmd {
 	case "annotate":
 		// rewrite the mirror contract files with the current variable tables (run when contracts are written or revised)
